@@ -28,7 +28,10 @@ type unit struct {
 	Kind    string
 	Msg     string
 	Est     int
-	gen     func(w *worker, u *unit, emit func(*caseT))
+	// a stateful unit's enumeration depends on the outcomes of its own earlier cases (explicit-state
+	// search): on a restart every earlier case is executed again instead of being skipped
+	Stateful bool
+	gen      func(w *worker, u *unit, emit func(*caseT))
 }
 
 var consSeedNames = []string{"NewRoundStep", "NewValidBlock", "HasVote", "VoteSetMaj23", "Proposal", "ProposalPOL", "BlockPart", "Vote(prevote)", "Vote(precommit-nil)", "VoteSetBits"}
